@@ -50,6 +50,10 @@ Eff(op, t) ==
          ELSE IF t[p].k = "absent" THEN Ok(t, "?")
          ELSE IF t[p].k = "dir" /\ Children(t, p) # {} THEN Fail(t)
          ELSE Ok([t EXCEPT ![p] = Absent], "true")
+    \* rm <p> <q>: every named path that exists (files here) is gone afterwards, whatever stands before it in the list
+    [] op.cmd = "rm2" -> LET q == op.a[2] IN
+         IF t[p].k = "dir" \/ t[q].k = "dir" THEN Ok(t, "skip")
+         ELSE Ok([x \in Paths |-> IF x \in {p, q} THEN Absent ELSE t[x]], IF t[p].k = "file" /\ t[q].k = "file" THEN "true" ELSE "?")
     [] op.cmd = "rmdir" -> IF t[p].k = "absent" THEN Ok(t, "?") ELSE IF t[p].k = "file" \/ Children(t, p) # {} THEN Fail(t) ELSE Ok([t EXCEPT ![p] = Absent], "true")
     [] op.cmd \in {"readfile", "read_binary"} -> IF t[p].k = "file" THEN Ok(t, "=" \o t[p].c) ELSE Ok(t, "none-or-false")
     [] op.cmd = "is_path_exists" -> Ok(t, IF t[p].k # "absent" THEN "true" ELSE "false")
@@ -88,4 +92,5 @@ Ops == { [cmd |-> c, a |-> <<p, "x">>] : c \in {"writefile", "appendfile", "writ
    \cup { [cmd |-> "rm", a |-> <<"-r", p>>] : p \in Paths }
    \cup { [cmd |-> c, a |-> <<p, q>>] : c \in {"cp", "mv"}, p \in Sources, q \in Paths }
    \cup { [cmd |-> c, a |-> <<"a.txt">>] : c \in {"cp_detour", "mv_detour"} }
+   \cup ({ [cmd |-> "rm2", a |-> <<x, y>>] : x \in FilePaths, y \in FilePaths } \ { [cmd |-> "rm2", a |-> <<x, x>>] : x \in FilePaths })
 =============================================================================
